@@ -166,7 +166,7 @@ def drop_immediately(prog, ex, P, tier):
 
 CAUSES = ["stop", "kill", "drop", "on_start_err", "on_start_panic", "on_run_err", "on_run_panic", "handler_panic",
           "stop+on_stop_err", "stop+on_stop_panic", "on_run_err+on_stop_err", "on_run_err+on_stop_panic", "kill+on_stop_panic", "drop+on_stop_panic", "kill+on_stop_err", "on_start_slow+kill", "slow_on_stop:stop+kill",
-          "on_start_slow+stop"]
+          "on_start_slow+stop", "on_start_slow+kill_only"]
 
 
 def script_for(cause, hy):
@@ -202,11 +202,12 @@ def endings(prog, ex, P, tier):
     cap = 1 if tier == "quick" else pick(ex, [1, 2], "cap")
     s = Sim(prog, ex)
     s.spawn_actor(script_for(cause, hy), cap)
-    s.client("c1", [("ask", "A", 1)], ["A"])
-    s.client("c2", [("ask", "A", 2)], ["A"])
+    if cause != "on_start_slow+kill_only":          # (that cause: a kill during on_start and no other holder of a reference)
+        s.client("c1", [("ask", "A", 1)], ["A"])
+        s.client("c2", [("ask", "A", 2)], ["A"])
     if cause.startswith("stop") or cause.endswith("+stop") or "stop+" in cause:
         s.client("cs", [("stop", "A")], ["A"])
-    if cause.startswith("kill") or cause.endswith("+kill"):
+    if cause.startswith("kill") or cause.endswith("+kill") or cause.endswith("+kill_only"):
         s.client("ck", [("kill", "A")], ["A"])
     if cause in (("on_run_panic", "on_start_err") if tier == "quick" else ("on_run_err", "on_run_panic", "on_run_err+on_stop_err", "handler_panic", "on_start_err", "on_start_panic")):
         # a prober that keeps a reference and asks at an arbitrary later moment
@@ -435,7 +436,8 @@ def mon_c10(tr, d):
 # ---- two actors ------------------------------------------------------------------------
 def failing_alone(prog, ex, P, tier):
     """A panics / fails in a hook while exchanging messages with B; B must be unaffected"""
-    where = pick(ex, ["on_start_panic", "handler_panic", "on_run_panic", "on_stop_panic", "on_run_err"], "crash-point")
+    where = pick(ex, ["on_start_panic", "handler_panic", "on_run_panic", "on_stop_panic", "on_run_err", "kill+on_stop_panic", "on_run_err+on_stop_panic"], "crash-point")
+    # (no "drop+..." crash point here: A and B hold references to each other, so neither is ever unreferenced)
     s = Sim(prog, ex)
     sa = script_for(where if where != "on_stop_panic" else "stop+on_stop_panic", 0)
     sa.name = "A"
@@ -450,6 +452,8 @@ def failing_alone(prog, ex, P, tier):
     s.client("c1", [("ask", "A", 1), ("ask", "B", 5), ("ask", "B", 6)] if tier != "quick" else [("ask", "B", 5), ("ask", "B", 6)], ["A", "B"])
     if where == "on_stop_panic":
         s.client("cs", [("stop", "A")], ["A"])
+    if where == "kill+on_stop_panic":
+        s.client("ck", [("kill", "A")], ["A"])
     if tier != "quick":
         s.client("late", [("yield",), ("ask", "B", 7)], ["B"])
     s.drop_main("A")
@@ -457,8 +461,12 @@ def failing_alone(prog, ex, P, tier):
     s.run(120)
     tr = finish(ex, s)
     ta = tr.actor_task("A")
-    if where.endswith("panic"):
+    if where.endswith("panic") and where in ("on_start_panic", "on_stop_panic"):
         ex.check("C12", ta.state == "panicked", "A's hook panicked but its JoinHandle says %s" % ta.state)
+    # whichever hook of A panicked on this schedule: the JoinHandle must report the panic
+    hp = [e for e in tr.ev if e["ev"] == "hook_panic" and e.get("actor") == "A"]
+    if hp:
+        ex.check("C12", ta.state == "panicked", "A's %s panicked but its JoinHandle reports a regular result (%s)" % (hp[0]["hook"], ta.state))
     # B satisfies the other properties and keeps answering
     for m in (M.mon_c04, M.mon_c05, M.mon_c01, M.mon_c02):
         try:
@@ -1284,9 +1292,51 @@ def burst(prog, ex, P, tier):
     messages): one sender, 12 (thorough 20) tells into a mailbox large enough to hold them all,
     periodic or one-shot on_run, optionally a kill / stop in the middle"""
     n = 12 if tier == "quick" else 20
-    mode = pick(ex, ["periodic-on_run", "default-on_run", "periodic+kill", "default+stop"], "mode")
+    mode = pick(ex, ["periodic-on_run", "default-on_run", "periodic+kill", "default+stop", "small-cap-pending-on_run", "cap8-parked-sender"] + (["small-cap-pending-on_run+stop"] if tier != "quick" else []), "mode")
     sc = Script("A")
     s = Sim(prog, ex)
+    if mode == "cap8-parked-sender":
+        # capacity 8 (the smallest where capacity/4 > 1): the mailbox is full, one more sender is
+        # parked, the actor takes exactly ONE message and stalls: the parked send must go through
+        sc.handler_yields = {"*": "tick"}
+        s.spawn_actor(sc, 8)
+        s.client("c1", [("tell", "A", i + 1) for i in range(10)], ["A"], keep_refs=True)
+        s.drop_main("A")
+        ticks = [1]
+        s.extra_actions.append((lambda: ticks[0] > 0 and any(e["ev"] == "op_start" and e["op"][2] == 10 for e in ex.events),
+                                lambda: (ticks.__setitem__(0, 0), s.w.advance(1)), "clock-advance"))
+        s.run(120)
+        tr = finish(ex, s)
+        apply(tr, P, cap=8)
+        if P == "C09":
+            for o in tr.ops().values():
+                ex.check("C09", o["done"] is not None or tr.w.actors["A"]["mailbox"].free == 0,
+                         "tell(%s) is still waiting although the mailbox has a free slot" % o["op"][2])
+        return
+    if mode.startswith("small-cap"):
+        # more messages than the mailbox holds, back to back, while the idle hook waits for an
+        # event that never comes (no clock advance): every message, the ask and the stop must
+        # still be served
+        sc.on_run_default = ("true", "tick")
+        sc.handler_yields = {"*": 1}          # the sender can refill the mailbox while a handler is suspended
+        s.spawn_actor(sc, 2)
+        s.client("c1", [("tell", "A", i + 1) for i in range(3 if tier == "quick" else 4)] + [("ask", "A", 100)], ["A"], keep_refs=(not mode.endswith("+stop")))
+        if mode.endswith("+stop"):
+            s.client("cs", [("yield",), ("stop", "A")], ["A"])
+        s.drop_main("A")
+        s.run(160)
+        tr = finish(ex, s)
+        apply(tr, P, cap=2)
+        if P in ("C07", "C01", "C08"):
+            try:
+                M.mon_c03(tr)
+            except Violation as e:
+                raise Violation(P, "a referenced actor with a pending idle hook stopped serving its mailbox: " + e.msg, e.detail)
+            for o in tr.ops().values():
+                if o["op"][0] == "ask":
+                    ex.check(P, M.rcode(o["result"]) == "ok" or mode.endswith("+stop"), "a referenced, never-stopped actor stopped answering: %s" % o["result"])
+            M.mon_c07(tr, "A", expect_alive=(not mode.endswith("+stop")))
+        return
     if mode.startswith("periodic"):
         sc.on_run_default = ("true", "tick")
         ticks = [2]
@@ -1404,6 +1454,7 @@ def projection(tr):
         t = w.actors[a]["task"]
         out.append(("end", a, t.state, w.describe(t.result) if t.state == "finished" else ""))
     out.append(("dead", tuple(sorted((e["op"], e["reason"]) for e in tr.ev if e["ev"] == "dead_letter"))))
+    out.append(("on_tell_result", tuple(sorted(str(e["result"]) for e in tr.ev if e["ev"] == "on_tell_result"))))
     return tuple(out)
 
 
